@@ -224,7 +224,7 @@ func c07SemCapacity(c *Check, a *Anchors) {
 		nilGuard := false
 		if len(fb.Body.List) > 0 {
 			if ifs, isIf := fb.Body.List[0].(*ast.IfStmt); isIf {
-				if be, isBin := ast.Unparen(ifs.Cond).(*ast.BinaryExpr); isBin && be.Op == token.EQL && fieldSel(info, be.X, PkgTask, "Executor", "concurrencySemaphore") && isNilLit(info, be.Y) {
+				if be, isBin := ast.Unparen(ifs.Cond).(*ast.BinaryExpr); isBin && be.Op == token.EQL && a.isSem(info, be.X) && isNilLit(info, be.Y) {
 					nilGuard = len(returnsOf(ifs.Body)) == 1
 				}
 			}
